@@ -49,32 +49,14 @@ def run(ctx):
 
     # ---------------- R3 failure detection
     r3 = ctx.rule("R3", "a failing scheduler command surfaces as BackendError; every scheduler command goes through call()", min_instances=3)
-    call_f = idx.func("gwf.backends.utils:call")
+    from .evalhelpers import eval_call_failure
+    from ..symeval import tok
+    table, call_f = eval_call_failure(ctx)
     ccon = f"{call_f.module.relpath}::{call_f.qual}"
-    raise_if = None
-    for n in walk_no_nested(call_f.node):
-        if isinstance(n, ast.If) and any(isinstance(s, ast.Raise) and s.exc is not None and (idx.canon(s.exc.func if isinstance(s.exc, ast.Call) else s.exc, call_f.module) or "")
-                                         .endswith("BackendError") for s in n.body):
-            raise_if = n
-    if raise_if is None:
-        r3.violation(ccon, "call() never raises BackendError: a rejected submission would be recorded as accepted", call_f.where)
-    else:
-        atoms = {
-            "rc": lambda e: isinstance(e, ast.Compare) and len(e.ops) == 1 and isinstance(e.ops[0], ast.NotEq) and ast.unparse(e.left).endswith(".returncode")
-            and isinstance(e.comparators[0], ast.Constant) and e.comparators[0].value == 0,
-            "err": lambda e: isinstance(e, ast.Compare) and len(e.ops) == 1 and isinstance(e.ops[0], ast.In) and isinstance(e.left, ast.Constant)
-            and e.left.value == "error:" and dotted(e.comparators[0]) == "stderr",
-        }
-        f = bool_skeleton(raise_if.test, atoms)
-        table = {(a, b): f({"rc": a, "err": b}) for a, b in itertools.product((False, True), repeat=2)}
-        want = {(False, False): False, (True, False): True, (False, True): True, (True, True): True}
-        r3.check(table == want, ccon + "::failure-test", "raises iff returncode != 0 or 'error:' in stderr",
-                 f"call() does not raise for every failure kind (non-zero exit, 'error:' on stderr): truth table (exit!=0, error:) -> raise is {table}",
-                 loc(raise_if, call_f.module))
-    ret_ok = any(isinstance(n, ast.Return) and dotted(n.value) == "stdout" for n in walk_no_nested(call_f.node))
-    comm = any(isinstance(n, ast.Assign) and isinstance(n.targets[0], ast.Tuple) and [dotted(e) for e in n.targets[0].elts] == ["stdout", "stderr"]
-               and any(isinstance(c.func, ast.Attribute) and c.func.attr == "communicate" for c in _calls(n.value)) for n in walk_no_nested(call_f.node))
-    r3.check(ret_ok and comm, ccon + "::stdout", "returns the command's stdout", "call() does not return the command's standard output", call_f.where)
+    want = {(False, False): tok("STDOUT"), (True, False): "raise BackendError", (False, True): "raise BackendError", (True, True): "raise BackendError"}
+    r3.check(table == want, ccon + "::failure-test", "raises BackendError iff the exit status is non-zero or 'error:' appears on stderr; otherwise returns stdout",
+             f"call() over (exit!=0, 'error:' on stderr) gives {table}; a failing scheduler command must raise BackendError for each failure kind and a succeeding one "
+             "must hand back its stdout (a rejected submission would otherwise be recorded as accepted)", call_f.where)
     # who may use subprocess
     allowed = {"gwf.backends.utils:call", "gwf.workflow:Workflow.shell"}
     n_sites = 0
